@@ -213,7 +213,19 @@ func renderPath(p *Path, mode ParenMode, out *[]Tok) {
 			*out = append(*out, Tok{n, "name"})
 			for _, pr := range s.Preds {
 				*out = append(*out, punct("["))
-				render(Bin("=", Leaf(pr.Key), pr.Val), mode, out)
+				if pr.Key == "" {
+					// a predicate that is any expression (C03: operators directly inside the brackets)
+					// (fully parenthesised: the whole predicate expression gets its own pair, too)
+					if mode == FullParens {
+						*out = append(*out, punct("("))
+					}
+					render(pr.Val, mode, out)
+					if mode == FullParens {
+						*out = append(*out, punct(")"))
+					}
+				} else {
+					render(Bin("=", Leaf(pr.Key), pr.Val), mode, out)
+				}
 				*out = append(*out, punct("]"))
 			}
 		}
